@@ -41,7 +41,9 @@ func extractURL(req *http.Request) *url.URL {
 	}
 
 	if val := req.Header.Get("X-Forwarded-Uri"); len(val) != 0 {
-		if forwardedURI, err := url.Parse(val); err == nil {
+		// the value is a request target, but not a URI reference. That is, a value starting with two
+		// slashes is a path, and must not be interpreted as a reference having an authority, but no scheme
+		if forwardedURI, err := url.ParseRequestURI(val); err == nil {
 			rawPath = forwardedURI.EscapedPath()
 			query = forwardedURI.RawQuery
 		}
